@@ -106,6 +106,8 @@ fn gen_history(rng: &mut Prng, prop: &str, thorough: bool) -> History {
     let mut ops = vec![];
     let mut next_snap = 0u32;
     let mut live: Vec<u32> = vec![];
+    let mut live_iters: Vec<u32> = vec![];
+    let mut next_iter = 0u32;
     let mut fill_start = 0u32;
     // weights by property
     let (w_snap, w_compact, w_reopen, w_idle) = match prop {
@@ -166,6 +168,9 @@ fn gen_history(rng: &mut Prng, prop: &str, thorough: bool) -> History {
             for id in live.drain(..) {
                 ops.push(Op::Release(id));
             }
+            for id in live_iters.drain(..) {
+                ops.push(Op::IterClose(id));
+            }
             let mut c = Cfg::gen(rng);
             if rng.chance(1, 2) {
                 // change only the log-reuse setting
@@ -185,6 +190,15 @@ fn gen_history(rng: &mut Prng, prop: &str, thorough: bool) -> History {
             }
         } else if hit(2) {
             ops.push(Op::GetN(gen_key(rng, space), 130));
+        } else if hit(if prop == "C03" || prop == "C11" { 6 } else { 2 }) {
+            if live_iters.len() < 3 && (live_iters.is_empty() || rng.chance(1, 2)) {
+                ops.push(Op::IterOpen(next_iter));
+                live_iters.push(next_iter);
+                next_iter += 1;
+            } else if !live_iters.is_empty() {
+                let i = rng.below(live_iters.len() as u64) as usize;
+                ops.push(Op::IterClose(live_iters.remove(i)));
+            }
         } else if !live.is_empty() {
             let id = *rng.pick(&live);
             if rng.chance(3, 4) {
@@ -195,6 +209,9 @@ fn gen_history(rng: &mut Prng, prop: &str, thorough: bool) -> History {
         } else {
             ops.push(Op::Get(gen_key(rng, space)));
         }
+    }
+    for id in live_iters.drain(..) {
+        ops.push(Op::IterClose(id));
     }
     ops.push(Op::Idle);
     History { cfg, ops }
@@ -211,6 +228,7 @@ fn add_stats(rep: &mut Report, s: &Stats) {
     rep.add("lsm.reopens", s.reopens);
     rep.add("lsm.idle-checks", s.idle_checks);
     rep.add("lsm.compactions-with-live-snapshots", s.snapshots_alive_at_compaction);
+    rep.add("lsm.obsolete-files-lingering-until-next-pass", s.lingering);
     let bump = |rep: &mut Report, k: &str, v: u64| {
         let cur = rep.dist.get(k).copied().unwrap_or(0);
         if v > cur {
